@@ -37,8 +37,32 @@ func checkC18(cx *Ctx, r *Report) {
 	}
 
 	scope := cx.handlerScope()
+	seenH := map[*ssa.Function]bool{}
 	cx.checkFieldFidelity(r, scope)
 	cx.checkSendsWhatItIsGiven(r)
+	// a reply is one document: every routed handler performs exactly one reply act on every path (an error text
+	// after a document that was already written makes the body ill-formed)
+	for _, rt := range cx.routes() {
+		if strings.Contains(rt.Handler.Synthetic, "bound method wrapper") {
+			for _, c := range callsIn(rt.Handler) {
+				if f := calleeOf(c); f != nil {
+					rt.Handler = f
+				}
+			}
+		}
+		k := w.FuncKey(rt.Handler)
+		if k == kSSO || k == kLogout || k == kAttr {
+			if ch := cx.chain(r, k); ch != nil {
+				checkChainHandlerEmit(cx, r, "R-EMIT", k, ch)
+			}
+			continue
+		}
+		if seenH[rt.Handler] {
+			continue
+		}
+		seenH[rt.Handler] = true
+		cx.checkEmitExactlyOne(r, "R-EMIT", "handler:"+k, rt.Handler)
+	}
 	cx.checkBuildRedirectQuery(r) // the redirect query is part of the wire encoding: each value escaped exactly once
 	cx.checkMarshalUntouched(r)
 	// --- what reaches the encoder --------------------------------------------------------------------
